@@ -35,7 +35,13 @@ def replay(req):
     if func.split('#')[0] in ('file_builder.FileBuilder._make_dirs',
                               'file_builder.FileBuilder._prepare_file_creation',
                               'file_builder.FileBuilder._dirs_to_make'):
-        return failed_setup_cases(req)
+        r = failed_setup_cases(req)
+        if r.get('reproduced') or not (req.get('property') == 'C02' or
+                                       'never-moves' in req.get('label', '')):
+            return r
+        r2 = rollback_cases(req)
+        r2['evaluations'] = r2.get('evaluations', 0) + r.get('evaluations', 0)
+        return r2
     if func.split('#')[0] in ('file_builder.FileBuilder._apply_cached_suboperations',
                               'file_builder.FileBuilder._unapply_cached_suboperations'):
         return failed_reuse_case(req)
@@ -967,7 +973,34 @@ def rollback_cases(req):
             raise boom
         FileBuilder.build(cache, 'n', f)
 
+    # 9/10. the function of a rebuilt output writes its file and then calls build_file for a path
+    # BELOW that file (a script error). _make_dirs must not move the half-built output aside as if
+    # it were the previous build's: the roll-back would then restore the failed build's bytes.
+    def prep9(root, delete=False):
+        cache = os.path.join(root, 'c.gz')
+        out = os.path.join(root, 'out')
+        FileBuilder.build(cache, 'n', lambda b: b.build_file(out, 'mk', mk, 'v1'))
+        os.utime(out, ns=(10 ** 18, 10 ** 18))
+        if delete:
+            os.remove(out)
+        return cache
+
+    def fail9(root, cache, boom):
+        out = os.path.join(root, 'out')
+
+        def inner(b, filename, text):
+            write(filename, text)
+            try:
+                b.build_file(os.path.join(filename, 'child'), 'mk', mk)
+            except OSError:
+                pass
+            raise boom
+        FileBuilder.build(cache, 'n', lambda b: b.build_file(out, 'inner', inner, 'v2'))
+
     cases = [('new outputs and an overwritten foreign file', prep1, fail1),
+             ('nested build_file below the output being rebuilt', prep9, fail9),
+             ('nested build_file below a deleted output being rebuilt',
+              lambda root: prep9(root, True), fail9),
              ('directory of the previous build replaced by an output file', prep8, fail8),
              ('foreign file at a former directory; caught failure, then the directory is made '
               'again by this build', prep7, fail7),
@@ -979,7 +1012,7 @@ def rollback_cases(req):
     if 'removed-first' in label:
         pass
     elif 'restore_all' in label:
-        cases.insert(0, cases.pop(4))
+        cases.insert(0, cases.pop(6))
     skip_to_write = 'cache-file-written' in label
     first = None
     for case in cases:
@@ -1497,6 +1530,103 @@ def transparency_cases(req):
     finally:
         for r in roots:
             shutil.rmtree(r, ignore_errors=True)
+    # the directory of a recorded output is replaced by a regular file; the function tolerates the
+    # OSError of that build_file call: from scratch it returns normally, and so must the
+    # incremental build (the stale record is simply not reusable)
+    n += 1
+    roots = []
+    try:
+        outs = []
+        for variant in ('incremental', 'scratch'):
+            root = scratch()
+            roots.append(root)
+
+            def mkf(b, filename, text):
+                write(filename, text)
+
+            def reports(b):
+                b.build_file(os.path.join(root, 'summary.txt'), 'mkf', mkf, 's')
+                try:
+                    b.build_file(os.path.join(root, 'reports', 'report.txt'), 'mkf', mkf, 'r')
+                except OSError as e:
+                    return 'summary only (%s)' % type(e).__name__
+                return 'both'
+
+            def prog(b):
+                return b.subbuild('reports', reports)
+
+            def run():
+                try:
+                    return ('ok', FileBuilder.build(os.path.join(root, 'cache.gz'), 'demo', prog))
+                except Exception as e:
+                    return ('raise', type(e).__name__)
+            if variant == 'incremental':
+                run()
+                shutil.rmtree(os.path.join(root, 'reports'))
+            write(os.path.join(root, 'reports'), 'a regular file')
+            outs.append(run())
+        if outs[0] != outs[1]:
+            return {'reproduced': True,
+                    'check': 'incremental build differs from a from-scratch build',
+                    'input': 'subbuild builds reports/report.txt and tolerates OSError; the '
+                             'directory reports is replaced by a regular file',
+                    'observed': {'incremental': repr(outs[0]), 'from_scratch': repr(outs[1])},
+                    'evaluations': n}
+    finally:
+        for r in roots:
+            shutil.rmtree(r, ignore_errors=True)
+    # a caught failing build_file inside a cached subbuild; then something foreign appears at the
+    # target of the failed call: from scratch the call first removes a file standing there (or
+    # fails with IsADirectoryError on a directory); the replay must not just repeat "failed"
+    for planted in ('file', 'dir'):
+        n += 1
+        roots = []
+        try:
+            outs = []
+            for variant in ('incremental', 'scratch'):
+                root = scratch()
+                roots.append(root)
+                target = os.path.join(root, 'out', 'x.txt')
+
+                def failing(b, filename):
+                    raise ValueError('cannot build')
+
+                def step(b):
+                    try:
+                        b.build_file(target, 'failing', failing)
+                        return 'built'
+                    except Exception as e:
+                        return 'caught ' + type(e).__name__
+
+                def prog(b):
+                    return [b.subbuild('step', step), b.exists(target)]
+
+                def run():
+                    try:
+                        return ('ok', FileBuilder.build(os.path.join(root, 'cache.gz'), 'demo',
+                                                        prog))
+                    except Exception as e:
+                        return ('raise', type(e).__name__)
+                if variant == 'incremental':
+                    run()
+                os.makedirs(os.path.join(root, 'out'), exist_ok=True)
+                if planted == 'file':
+                    write(target, 'foreign')
+                else:
+                    os.makedirs(target)
+                    write(os.path.join(target, 'inner.txt'), 'foreign')
+                res = run()
+                outs.append((res, os.path.isfile(target)))
+            if outs[0] != outs[1]:
+                return {'reproduced': True,
+                        'check': 'incremental build differs from a from-scratch build',
+                        'input': 'cached subbuild tolerates a failing build_file(out/x.txt); a '
+                                 'foreign %s is planted at out/x.txt' % planted,
+                        'observed': {'incremental': repr(outs[0]), 'from_scratch': repr(outs[1])},
+                        'evaluations': n}
+        finally:
+            for r in roots:
+                shutil.rmtree(r, ignore_errors=True)
     return {'reproduced': False, 'evaluations': n}
 
 
